@@ -48,10 +48,12 @@ def latch_guards(fn):
             owner = field_owner(fn, src['place'], 'dirty')
             if owner in LATCH_ADTS:
                 out.append((LATCH_ADTS[owner], frozenset((bi, x) for x in nonzero_targets(t)), bi))
-        elif src['kind'] == 'call' and (src['callee'] or '').endswith('PartialEq::eq'):
+        elif src['kind'] == 'call' and (src['callee'] or '').endswith(('PartialEq::eq', 'PartialEq::ne')):
             ga = src['term'].get('gargs') or []
             if ga and fn.ty(ga[0]).get('path') == STATUS_ADT:
-                out.append(('status', frozenset((bi, x) for x in zero_targets(t)), bi))
+                # the arm on which the two status values differ
+                differ = zero_targets(t) if src['callee'].endswith('::eq') else nonzero_targets(t)
+                out.append(('status', frozenset((bi, x) for x in differ), bi))
     return out
 
 
@@ -347,10 +349,11 @@ def run(ctx, rep):
             if t['k'] != 'switch':
                 continue
             src = switch_source(fn, bi)
-            if src and src['kind'] == 'call' and (src['callee'] or '').endswith('PartialEq::eq'):
+            if src and src['kind'] == 'call' and (src['callee'] or '').endswith(('PartialEq::eq', 'PartialEq::ne')):
                 ga = src['term'].get('gargs') or []
                 if ga and fn.ty(ga[0]).get('path') == 'fatfs::fs::FatType':
-                    edges = frozenset((bi, x) for x in nonzero_targets(t))
+                    equal = nonzero_targets(t) if src['callee'].endswith('::eq') else zero_targets(t)
+                    edges = frozenset((bi, x) for x in equal)
                     for b2, tt in fn.calls():
                         if eff.fn_reaches_dev(fn.name, b2, 'W') and edge_dominates(fn, edges, b2):
                             ok = True
